@@ -587,8 +587,8 @@ def run_job(job):
     # soundness: the fault-free run must satisfy the oracle, otherwise skip the family
     r0 = execute({"family": fam, "fault": {"kind": "none"}})
     if r0["violation"] is not None and fam["offender"] is None and not fam.get("offender_in_pre"):
-        stats["nofault_mismatch"] = 1 if part == 0 else 0
-        if part == 0:
+        stats["nofault_mismatch"] = 1  # (per job: every part of the family is skipped)
+        if True:
             stats.setdefault("nofault_samples", []).append(
                 json.dumps({"label": fam["label"], "tkind": fam["tkind"],
                             "clause": r0["violation"]["clause"]})[:300])
